@@ -10,20 +10,22 @@ use rs_opw_kinematics::parameters::opw_kinematics::Parameters;
 use rs_opw_kinematics::rrt::RRTPlanner;
 use nalgebra::{Isometry3, Translation3};
 
-pub struct Scn { pub start: Joints, pub dx: f64, pub dz: f64, pub nsteps: usize, pub obstacle: bool, pub include_interp: bool, pub step_m: f64, pub cost_deg: f64, pub depth: usize }
+pub struct Scn { pub start: Joints, pub dx: f64, pub dz: f64, pub nsteps: usize, pub obstacle: bool, pub include_interp: bool, pub step_m: f64, pub cost_deg: f64, pub depth: usize, pub coef: f64 }
 impl Scn {
-    fn to_json(&self) -> String { format!("{{\"start\": {}, \"dx\": {:?}, \"dz\": {:?}, \"nsteps\": {}, \"obstacle\": {}, \"include_interp\": {}, \"step_m\": {:?}, \"cost_deg\": {:?}, \"depth\": {}}}",
-        json::nums(&self.start), self.dx, self.dz, self.nsteps, self.obstacle, self.include_interp, self.step_m, self.cost_deg, self.depth) }
+    fn to_json(&self) -> String { format!("{{\"start\": {}, \"dx\": {:?}, \"dz\": {:?}, \"nsteps\": {}, \"obstacle\": {}, \"include_interp\": {}, \"step_m\": {:?}, \"cost_deg\": {:?}, \"depth\": {}, \"coef\": {:?}}}",
+        json::nums(&self.start), self.dx, self.dz, self.nsteps, self.obstacle, self.include_interp, self.step_m, self.cost_deg, self.depth, self.coef) }
     fn from_json(o: &str) -> Option<Scn> { let s = json::get_nums(o, "start"); Some(Scn { start: [s[0], s[1], s[2], s[3], s[4], s[5]], dx: json::get_num(o, "dx")?, dz: json::get_num(o, "dz")?, nsteps: json::get_num(o, "nsteps")? as usize,
-        obstacle: o.contains("\"obstacle\": true"), include_interp: o.contains("\"include_interp\": true"), step_m: json::get_num(o, "step_m")?, cost_deg: json::get_num(o, "cost_deg")?, depth: json::get_num(o, "depth")? as usize }) }
+        obstacle: o.contains("\"obstacle\": true"), include_interp: o.contains("\"include_interp\": true"), step_m: json::get_num(o, "step_m")?, cost_deg: json::get_num(o, "cost_deg")?, depth: json::get_num(o, "depth")? as usize, coef: json::get_num(o, "coef").unwrap_or(1.0) }) }
 }
-pub fn robot(obstacle_at: Option<[f32; 3]>) -> KinematicsWithShape {
+pub fn robot(obstacle_at: Option<[f32; 3]>) -> KinematicsWithShape { robot_m(obstacle_at, 0.0) }
+/// the same robot with a safety margin to the environment (0 = touch only)
+pub fn robot_m(obstacle_at: Option<[f32; 3]>, margin: f32) -> KinematicsWithShape {
     let h = 0.02f32;
     let links = [box_mesh([0.0; 3], [h, h, h], false), box_mesh([0.0; 3], [h, h, h], true), box_mesh([0.0; 3], [h, h, h], false), box_mesh([0.0; 3], [h, h, h], true), box_mesh([0.0; 3], [h, h, h], false), box_mesh([0.0; 3], [h, h, h], true)];
     let env = match obstacle_at { Some(c) => vec![CollisionBody { mesh: box_mesh(c, [0.04, 0.04, 0.04], true), pose: Isometry3::identity() }], None => vec![] };
     KinematicsWithShape::with_safety(Parameters::irb2400_10(), Constraints::from_degrees([-180.0..=180.0, -180.0..=180.0, -180.0..=180.0, -180.0..=180.0, -180.0..=180.0, -180.0..=180.0], 0.0),
         links, box_mesh([0.0, 0.0, -0.2], [0.1, 0.1, 0.05], false), Isometry3::identity(), box_mesh([0.0, 0.0, 0.03], [0.01, 0.01, 0.03], true), Isometry3::from_parts(Translation3::new(0.0, 0.0, 0.06), nalgebra::UnitQuaternion::identity()),
-        env, SafetyDistances::standard(CheckMode::FirstCollisionOnly))
+        env, if margin > 0.0 { SafetyDistances { to_environment: margin, to_robot_default: 0.0, special_distances: std::collections::HashMap::new(), mode: CheckMode::FirstCollisionOnly } } else { SafetyDistances::standard(CheckMode::FirstCollisionOnly) })
 }
 pub fn check(s: &Scn) -> Option<(String, String)> {
     let free = robot(None);
@@ -36,7 +38,7 @@ pub fn check(s: &Scn) -> Option<(String, String)> {
     let flange = mid * Isometry3::translation(0.0, 0.0, -0.06);
     let k = if s.obstacle { robot(Some([flange.translation.x as f32, flange.translation.y as f32, flange.translation.z as f32])) } else { robot(None) };
     if k.collides(&s.start) { return None; }
-    let planner = Cartesian { robot: &k, check_step_m: s.step_m, check_step_rad: 3.0f64.to_radians(), max_transition_cost: s.cost_deg.to_radians(), transition_coefficients: DEFAULT_TRANSITION_COSTS,
+    let planner = Cartesian { robot: &k, check_step_m: s.step_m, check_step_rad: 3.0f64.to_radians(), max_transition_cost: s.cost_deg.to_radians(), transition_coefficients: DEFAULT_TRANSITION_COSTS.map(|c| c * s.coef),
         linear_recursion_depth: s.depth, rrt: RRTPlanner { step_size_joint_space: 3.0f64.to_radians(), max_try: if s.cost_deg < 1.0 { 400 } else { 50 }, debug: false }, include_linear_interpolation: s.include_interp, debug: false };
     let mut from = s.start; from[0] += 0.05;     // the given start configuration: close to, but not equal to, a landing solution
     if k.collides(&from) { return None; }
@@ -77,7 +79,7 @@ pub fn check(s: &Scn) -> Option<(String, String)> {
         let detour = |f: PathFlags| f.contains(PathFlags::ONBOARDING) || f.contains(PathFlags::ALTERED);
         let cart = !detour(w.flags) && (n == 0 || !detour(path[n - 1].flags));
         if n > 0 && cart && off > 1e-5 { return Some((format!("waypoint {} lies {:e} m off the straight stroke", n, off), "on the segment".into())); }
-        if s.include_interp && n > 0 && cart { let c: f64 = (0..6).map(|i| (path[n - 1].joints[i] - w.joints[i]).abs() * DEFAULT_TRANSITION_COSTS[i]).sum(); /* independent of utils::transition_costs */ if c > s.cost_deg.to_radians() + 1e-9 { return Some((format!("transition {} -> {} costs {:.3} deg", n - 1, n, c.to_degrees()), format!("<= {} deg", s.cost_deg))); } }
+        if s.include_interp && n > 0 && cart { let c: f64 = (0..6).map(|i| (path[n - 1].joints[i] - w.joints[i]).abs() * DEFAULT_TRANSITION_COSTS[i] * s.coef).sum(); /* independent of utils::transition_costs */ if c > s.cost_deg.to_radians() + 1e-9 { return Some((format!("transition {} -> {} costs {:.3} deg", n - 1, n, c.to_degrees()), format!("<= {} deg", s.cost_deg))); } }
     }
     None
 }
@@ -86,7 +88,7 @@ pub fn search(seed: u64, budget: usize) -> Option<Found> {
     for round in 0..budget {
         let start = [rng.range(-0.5, 0.5), rng.range(0.2, 0.6), rng.range(-0.3, 0.3), rng.range(-0.4, 0.4), rng.range(0.6, 1.2), rng.range(-0.5, 0.5)];
         let s = Scn { start, dx: rng.range(0.05, 0.2), dz: rng.range(-0.15, 0.15), nsteps: rng.below(3), obstacle: round % 3 == 1, include_interp: round % 2 == 0,
-                      step_m: [0.01, 0.05, 0.1][rng.below(3)], cost_deg: [2.0, 4.0][rng.below(2)], depth: [4usize, 8][rng.below(2)] };
+                      step_m: [0.01, 0.05, 0.1][rng.below(3)], cost_deg: [2.0, 4.0][rng.below(2)], depth: [4usize, 8][rng.below(2)], coef: [1.0, 1.0, 3.0, 0.5][rng.below(4)] };
         // every fourth round: a cost limit so tight that the bisection gives up and the gaps are closed by RRT detours
         let s = if round % 4 == 3 { Scn { step_m: 0.04, cost_deg: 0.5, depth: 2, obstacle: false, ..s } } else { s };
         if let Some((o, e)) = check(&s) { return Some(Found { kind: "c12".into(), case: s.to_json(), observed: o, expected: e }); }
